@@ -1129,7 +1129,8 @@ def _data_intact_py(c, got):
 # batches
 # ======================================================================================================
 
-A_KNOBS = {'n_max': 8, 'p_dup_sel': 0.0, 'p_cont': 0.6, 'weights': {'calc_dep': 3}}
+# calc_dep edges are inside the theorems (C08_confluence) and the denotation monitor (K2c) since wave 3
+A_KNOBS = {'n_max': 8, 'p_dup_sel': 0.0, 'p_cont': 0.6, 'weights': {'calc_dep': 9}}
 
 
 def gen_variants(rng, case, kinds):
